@@ -27,6 +27,8 @@ JumpOk(e) ==
   /\ (r.status = "unknown" => PrintT(<<"UNKNOWN", sc, l>>))
   /\ Req("C01", r.status \in {"left", "unknown"} /\ ((r.status = "left" /\ e.fake_known) => r.pc = e.fake))
   /\ Req("C13", r.status = "left" => r.written \subseteq X64Scratch)
+  \* transparency presupposes arrival: the fake that receives the arguments is the one that was installed
+  /\ Req("C13", r.status \in {"left", "unknown"} /\ ((r.status = "left" /\ e.fake_known) => r.pc = e.fake))
 
 BoolOk(e) ==
   LET r == Run(Segs(e), e.func) IN
@@ -54,6 +56,7 @@ Called ==
   /\ Step("Called")
   /\ IF Ev.phase = "installed"
      THEN /\ Req("C01", s.ins.outcome = "ok" => Ev.res = s.ins.want)
+          /\ Req("C13", (s.ins.outcome = "ok" /\ s.ins.kind = "jump") => Ev.res = s.ins.want)
           /\ Req("C10", (s.ins.outcome = "ok" /\ s.ins.kind = "bool") => Ev.res = s.ins.want)
           /\ Req("C01", s.ins.outcome = "panic" => Ev.res = s.ins.orig_id)
      ELSE Req("C02", Ev.res = s.ins.orig_id)
